@@ -215,6 +215,10 @@ inline Sym operator-(const Sym & x)
   return Sym::raw(s.mk(NEG, x.id, -1));
 }
 inline Sym operator+(const Sym & x) { return x; }
+inline bool is_neg(const Sym & x) { return store().nodes[static_cast<size_t>(x.id)].op == NEG; }
+inline Sym neg_arg(const Sym & x) { return Sym::raw(store().nodes[static_cast<size_t>(x.id)].a); }
+inline Sym operator-(const Sym & x, const Sym & y);
+inline Sym operator+(const Sym & x, const Sym & y);
 
 inline Sym operator+(const Sym & x, const Sym & y)
 {
@@ -223,6 +227,8 @@ inline Sym operator+(const Sym & x, const Sym & y)
     return Sym(x.cval() + y.cval());
   if (x.is_cst() && x.cval() == 0) return y;
   if (y.is_cst() && y.cval() == 0) return x;
+  if (is_neg(y)) return x - neg_arg(y);   // x + (-y) = x - y   (exact in IEEE and in R)
+  if (is_neg(x)) return y - neg_arg(x);   // (-x) + y = y - x
   return Sym::raw(store().mk(ADD, x.id, y.id));
 }
 inline Sym operator-(const Sym & x, const Sym & y)
@@ -232,6 +238,7 @@ inline Sym operator-(const Sym & x, const Sym & y)
     return Sym(x.cval() - y.cval());
   if (y.is_cst() && y.cval() == 0) return x;
   if (x.is_cst() && x.cval() == 0) return -y;
+  if (is_neg(y)) return x + neg_arg(y);   // x - (-y) = x + y
   return Sym::raw(store().mk(SUB, x.id, y.id));
 }
 inline Sym operator*(const Sym & x, const Sym & y)
@@ -245,12 +252,18 @@ inline Sym operator*(const Sym & x, const Sym & y)
   if (y.is_cst() && y.cval() == 1) return x;
   if (x.is_cst() && x.cval() == -1) return -y;
   if (y.is_cst() && y.cval() == -1) return -x;
+  if (is_neg(x) && is_neg(y)) return neg_arg(x) * neg_arg(y);  // sign symmetry: exact in IEEE and in R
+  if (is_neg(x)) return -(neg_arg(x) * y);
+  if (is_neg(y)) return -(x * neg_arg(y));
   return Sym::raw(store().mk(MUL, x.id, y.id));
 }
 inline Sym operator/(const Sym & x, const Sym & y)
 {
   // only x/1 is simplified; constant quotients stay symbolic (exact in R)
   if (y.is_cst() && y.cval() == 1) return x;
+  if (is_neg(x) && is_neg(y)) return neg_arg(x) / neg_arg(y);
+  if (is_neg(x)) return -(neg_arg(x) / y);
+  if (is_neg(y)) return -(x / neg_arg(y));
   return Sym::raw(store().mk(DIV, x.id, y.id));
 }
 
